@@ -73,27 +73,27 @@ theorem known_size_visits_good (s : KSrc) (pa : Option Nat) (cv n : Nat) (v sm :
 
 /-- **Wrapper over an arbitrary iterator**: every item `(idx, val)` ever returned to any thread, under every
 schedule, satisfies `wrapped[idx] = val` … -/
-theorem iter_item_fidelity (s : IW.Script) (hf : IW.Fused s) (ps : Nat → List IW.Req)
+theorem iter_item_fidelity (s : IW.Script) (ps : Nat → List IW.Req)
     (hok : ∀ t, ∀ r ∈ ps t, IW.ReqOk r) (σ : List Nat) (hW : (IW.run s σ (IW.init ps)).R < W)
     (t b v : Nat) (ho : IW.POut.item b v ∈ ((IW.run s σ (IW.init ps)).th t).outs) : s b = .some v := by
-  have := (IW.oinv_run hf σ (IW.inv_init s ps hok) (IW.oinv_init s ps) hW).good t _ ho
+  have := (IW.oinv_run σ (IW.inv_init s ps hok) (IW.oinv_init s ps) hW).good t _ ho
   simpa [IW.GoodOut] using this
 
 /-- … and every chunk element at offset `k` is `wrapped[begin + k]`. -/
-theorem iter_chunk_fidelity (s : IW.Script) (hf : IW.Fused s) (ps : Nat → List IW.Req)
+theorem iter_chunk_fidelity (s : IW.Script) (ps : Nat → List IW.Req)
     (hok : ∀ t, ∀ r ∈ ps t, IW.ReqOk r) (σ : List Nat) (hW : (IW.run s σ (IW.init ps)).R < W)
     (t b : Nat) (vals : List Nat) (ho : IW.POut.chunk b vals ∈ ((IW.run s σ (IW.init ps)).th t).outs)
     (k : Nat) (hk : k < vals.length) : s (b + k) = .some (vals[k]) := by
-  have := (IW.oinv_run hf σ (IW.inv_init s ps hok) (IW.oinv_init s ps) hW).good t _ ho
+  have := (IW.oinv_run σ (IW.inv_init s ps hok) (IW.oinv_init s ps) hW).good t _ ho
   simp only [IW.GoodOut] at this
   exact this.2 k hk
 
 /-- while a thread fills its chunk, what it has accumulated is already the wrapped iterator's run at its ticket -/
-theorem iter_accumulator_fidelity (s : IW.Script) (hf : IW.Fused s) (ps : Nat → List IW.Req)
+theorem iter_accumulator_fidelity (s : IW.Script) (ps : Nat → List IW.Req)
     (hok : ∀ t, ∀ r ∈ ps t, IW.ReqOk r) (σ : List Nat) (hW : (IW.run s σ (IW.init ps)).R < W)
     (t b n : Nat) (h : ((IW.run s σ (IW.init ps)).th t).pc.ticket = some (b, n))
     (k : Nat) (hk : k < ((IW.run s σ (IW.init ps)).th t).pc.acc.length) :
     s (b + k) = .some (((IW.run s σ (IW.init ps)).th t).pc.acc[k]) :=
-  ((IW.inv_reach s hf ps hok σ hW).accOk t b n h).1 k hk
+  ((IW.inv_reach s ps hok σ hW).accOk t b n h).1 k hk
 
 end Orx.Props.C02
